@@ -235,6 +235,12 @@ def run_seq(ctx, segs, full):
             exp = rfc.remove_dot_segments(sp)
             ctx.ev(sig("joinpath_all"))
             verify(ctx, "joinpath_all", {"entry": "joinpath_all", "base": base, "segs": segs}, guarded(lambda: bu.joinpath(*pieces)), exp, True, sp)
+            if all(x.isascii() and all(c in rfc.PCHAR for c in x) for x in pieces):
+                # the same pieces handed over as PRE-ENCODED text: literal dot segments still go (pieces with escapes are left out:
+                # a '%2E' the caller declares encoded is kept verbatim, and what that means on re-parsing is the caller's business)
+                spe = splice(bpath, pieces, True)
+                ctx.ev(sig("joinpath_all_encoded"))
+                verify(ctx, "joinpath_all_encoded", {"entry": "joinpath_all_encoded", "base": base, "segs": segs}, guarded(lambda: bu.joinpath(*pieces, encoded=True)), rfc.remove_dot_segments(spe), True, spe)
     # joinpath with the sequence GROUPED into multi-segment arguments (a non-final argument then ends with '/'): every split point
     if len(segs) >= 2 and not joined.startswith("/"):
         for base in ("http://h/x/y", "http://h"):
